@@ -9,9 +9,10 @@ pub mod pathstack;
 pub mod pktline;
 pub mod refstore;
 pub mod selftest;
+pub mod zstream;
 
 pub fn all() -> Vec<&'static dyn Scenario> {
-    vec![&selftest::SelfTest, &parallel::Parallel, &refstore::RefStore, &pktline::PktLine, &pathstack::PathStack]
+    vec![&selftest::SelfTest, &parallel::Parallel, &refstore::RefStore, &pktline::PktLine, &pathstack::PathStack, &zstream::ZStream]
 }
 
 /// Which scenario decides a property.
